@@ -393,7 +393,7 @@ theorem broken_step {b : List Seg} (hb : ∀ s ∈ b, Plain s) {st : List Seg} {
       exact ⟨rr, t, rfl, hsuf, hlen, fun y hy => hrest y (by simp [hy])⟩
     | nil =>
       simp only [List.nil_append] at hst
-      subst hst
+      rw [hst]
       cases t with
       | nil => rw [step_dd_nil_rooted]; exact ⟨[], [], rfl, hsuf, hlen, by simp⟩
       | cons x t' =>
